@@ -11,7 +11,8 @@ def run(ctx):
     return lattice_check(ctx, gen="math/CubicGen", judge="math/CubicJudge", harness="cubic.cxx", libs=[],
                          rule="cubics constructed from every multiset of integer roots in -3..3 (and every real root x "
                               "irreducible quadratic with b in -2..2, c in 1..4), leading coefficient in {1,-2,3}, roots rescaled "
-                              "by 2^k for k in {0,+-10,+-100}, with and without refinement; all six branches of the case analysis "
+                              "by 2^k for k in {0,+-10,+-100}, with and without refinement; the family (x+s)(x^2-sx+s^2+e), s in {16,64,256}, e in {1,3} (single real root, "
+                              "nearly vanishing p: cancellation in the Cardano formula); all six branches of the case analysis "
                               "(p=0, q=0, disc=0, disc<0, disc>0) are asserted present by TLC; non-trivial = not x^3",
                          nontrivial=lambda c: any(c["co"][1:]),
                          sig=lambda f, b: f,
